@@ -49,6 +49,7 @@ def _pat_defs(pat, src, path, out):
 
 def definitions(hir, params=()):
     defs = {}
+    handled = set()
     for p in params:
         if p.get("k") == "Bind":
             defs.setdefault(p["lid"], []).append((None, (("param", p.get("name")),)))
@@ -63,7 +64,18 @@ def definitions(hir, params=()):
             lhs = hirq.unwrap_trivial(n.get("lhs") or n.get("l_") or {})
             if lhs.get("k") == "Path" and lhs.get("rk") == "Local":
                 defs.setdefault(lhs["lid"], []).append((n.get("rhs"), ()))
-        elif k == "Closure":
+        elif k in ("MethodCall", "Call") and any(isinstance(a, dict) and a.get("k") == "Closure" for a in n.get("a", [])):
+            # a closure handed to an adaptor (`xs.iter().map(|x| ..)`, `opt.map_or(d, |t| ..)`): its parameters are items of the
+            # receiver; the slice continues there (marked, so that a rule can tell the hop)
+            src = n.get("recv")
+            if src is None:
+                src = next((a for a in n.get("a", []) if isinstance(a, dict) and a.get("k") != "Closure"), None)
+            for a in n.get("a", []):
+                if isinstance(a, dict) and a.get("k") == "Closure":
+                    handled.add(id(a))
+                    for p in a.get("params", []):
+                        _pat_defs(p, src, [("closureparam",)], defs)
+        elif k == "Closure" and id(n) not in handled:
             for p in n.get("params", []):
                 _pat_defs(p, None, [("closureparam",)], defs)
     return defs
